@@ -120,6 +120,47 @@ theorem C02_flat_lenient_read (env : Env) (name : Str) (lines : List FLine)
   · rw [← List.reverse_reverse ((linesRepsRev 2 lines).reverse.filter isNormalization), List.filter_reverse]
     simp [linesRepsRev_not_norm]
 
+/-! ### the emitter is injective on flat documents (what the seal of C15 relies on) -/
+
+theorem flatNodes_inj (p : Nat → Nat × Nat) : ∀ (l1 l2 : List FLine) (i : Nat), flatNodes p i l1 = flatNodes p i l2 →
+    l1.map (fun ln => (ln.key, ln.v.value)) = l2.map (fun ln => (ln.key, ln.v.value)) := by
+  intro l1
+  induction l1 with
+  | nil =>
+    intro l2 i h
+    cases l2 with
+    | nil => rfl
+    | cons b r => simp [flatNodes] at h
+  | cons a r ih =>
+    intro l2 i h
+    cases l2 with
+    | nil => simp [flatNodes] at h
+    | cons b r2 =>
+      simp only [flatNodes, List.cons.injEq, FLine.node, Node.assign.injEq] at h
+      obtain ⟨⟨hk, hv, _⟩, hr⟩ := h
+      simp only [List.map_cons, List.cons.injEq, Prod.mk.injEq]
+      exact ⟨⟨hk, hv⟩, ih r2 (i + 1) hr⟩
+
+/-- **Two flat documents with the same canonical text have the same content** (name, keys in order, values with
+their types): on this class `emit` is injective up to the positions stored in the nodes, which is the hypothesis
+`C15_emit_injective` of the seal theorems (engine `project`).  Proof: the strict reader is a left inverse. -/
+theorem C15_flat_emit_injective (env : Env) (n1 n2 : Str) (p1 p2 : Nat → Nat × Nat) (l1 l2 : List FLine)
+    (hn1 : isEnvName n1 = true) (hne1 : n1 ≠ "END".toList) (hok1 : ∀ ln ∈ l1, ln.OK) (hem1 : ∀ ln ∈ l1, ln.EmitOK)
+    (hm1 : firstNotMeta l1 = true) (hnfc1 : ∀ l ∈ splitLines (flatText n1 l1), env.nfc l = l)
+    (hn2 : isEnvName n2 = true) (hne2 : n2 ≠ "END".toList) (hok2 : ∀ ln ∈ l2, ln.OK) (hem2 : ∀ ln ∈ l2, ln.EmitOK)
+    (hm2 : firstNotMeta l2 = true) (hnfc2 : ∀ l ∈ splitLines (flatText n2 l2), env.nfc l = l)
+    (h : emit env (flatDoc n1 p1 l1) = emit env (flatDoc n2 p2 l2)) :
+    n1 = n2 ∧ l1.map (fun ln => (ln.key, ln.v.value)) = l2.map (fun ln => (ln.key, ln.v.value)) := by
+  rw [emit_flat env n1 p1 l1 hem1, emit_flat env n2 p2 l2 hem2] at h
+  have ht : flatText n1 l1 = flatText n2 l2 := by simpa using h
+  have r1 := C01_flat_canonical_is_readable env n1 l1 hn1 hne1 hok1 hm1 hnfc1
+  have r2 := C01_flat_canonical_is_readable env n2 l2 hn2 hne2 hok2 hm2 hnfc2
+  rw [ht, r2] at r1
+  have hd : flatDoc n2 (fun i => (i + 2, 1)) l2 = flatDoc n1 (fun i => (i + 2, 1)) l1 := by
+    simpa using r1
+  simp only [flatDoc, Document.mk.injEq] at hd
+  exact ⟨hd.1.symm, (flatNodes_inj _ l2 l1 0 hd.2.2.2.1).symm⟩
+
 /-! non-vacuity: the example document of `Props/C01flat` meets every hypothesis -/
 
 example : ∃ text d', emit Env.ascii (flatDoc "DOC".toList (fun _ => (7, 7)) exLines) = some text ∧
